@@ -23,7 +23,7 @@ type skelTarget struct {
 
 var skelTargets = []skelTarget{
 	{"ds/set_impl.go", "set", "applyMutex", "A", []string{"Add", "AddAll", "Delete", "DeleteAll", "Apply", "Compute", "Replace", "apply"}},
-	{"ds/orderedmap/orderedmap.go", "OrderedMap", "mutex", "M", []string{"Set", "Delete", "Get", "Has", "Size", "Clear", "ForEach", "ForEachReverse"}},
+	{"ds/orderedmap/orderedmap.go", "OrderedMap", "mutex", "M", []string{"Set", "Delete", "Get", "Has", "Size", "IsEmpty", "Head", "Tail", "Clear", "ForEach", "ForEachReverse", "Clone"}},
 }
 
 func repoRoot() string {
